@@ -6,6 +6,7 @@ import (
 	"encoding/json"
 	"errors"
 	"fmt"
+	pkgerrors "github.com/pkg/errors"
 	"io"
 	"os"
 	"os/exec"
@@ -371,6 +372,7 @@ type fuseVerdict struct {
 
 func runFuse(fl *failer, c Case, l *layout, idx desync.Index) (nontrivial bool) {
 	store := dx.NewMemStore("c09fuse")
+	store.FaultErr = faultErrOf(c.FaultErr)
 	dx.FillStore(store, l.blob, idx)
 
 	// indexFileHandle.read reports every failed request on os.Stderr
@@ -848,6 +850,8 @@ func run(c Case) (o hx.Outcome) {
 
 	// --- read-seeker history
 	store := dx.NewMemStore("c09")
+	store.FaultErr = faultErrOf(c.FaultErr)
+	fl.class(fmt.Sprintf("fault-error-kind:%d", c.FaultErr%6))
 	dx.FillStore(store, l.blob, idx)
 	var rs *desync.IndexPos
 	psig := panicSig("readseeker", &l)
@@ -875,4 +879,21 @@ func run(c Case) (o hx.Outcome) {
 		o.Observed = st.trace
 	}
 	return o
+}
+
+// faultErrOf maps Case.FaultErr to the error an injected store failure returns.
+func faultErrOf(k int) func(kind string, n int) error {
+	switch k % 6 {
+	case 1:
+		return func(kind string, n int) error { return fmt.Errorf("Get \"http://store/chunk\": %w", io.EOF) }
+	case 2:
+		return func(kind string, n int) error { return pkgerrors.Wrap(io.EOF, "store") }
+	case 3:
+		return func(kind string, n int) error { return io.ErrUnexpectedEOF }
+	case 4:
+		return func(kind string, n int) error { return desync.ChunkMissing{} }
+	case 5:
+		return func(kind string, n int) error { return desync.ChunkInvalid{} }
+	}
+	return nil
 }
